@@ -11,7 +11,7 @@ import asyncio
 from hypothesis import strategies as st
 
 from .. import clients, recording, refcodec as R, vworld
-from ..runner import HarnessError, InvalidCase, Result
+from ..runner import HarnessError, InvalidCase, Result, SetupFailed
 
 ID = "C07"
 LEVEL = "exploration"
@@ -67,15 +67,24 @@ KINDS = ["statp", "rferr", "wcerr", "unknown", "junk", "late", "wrongsrc", "wron
          "mal_empty", "mal_nodescn", "mal_nodatas", "mal_trunc", "mal_reversed"]
 
 
+# kinds that no handshake step may take for its reply and that carry no meaning for the client
+EARLY_KINDS = ["unknown", "junk", "wrongsrc", "wrongdst", "wrongboth", "mal_empty", "mal_nodescn", "mal_nodatas",
+               "mal_trunc", "mal_reversed"]
+
+
 def strategy(tier):
     entry = st.tuples(st.sampled_from([0.0, 0.0, 0.01, 0.05, 0.1, 0.15, 0.3, 0.7]), st.sampled_from(KINDS),
                       st.integers(256, 1000), st.binary(min_size=2, max_size=2).map(bytes.hex)).map(list)
     req = st.tuples(st.sampled_from([0.0, 0.1, 0.25, 0.5, 1.0]), st.sampled_from(["CURCH", "GETWC", "REQRM", "AVERS"])).map(list)
     jitter = st.one_of(st.just([]), st.lists(st.sampled_from([0.0, 0.0, 0.005, 0.02, 0.049]), min_size=1, max_size=7))
+    # noise that arrives while the connection handshake is still running (delay after the endpoint exists)
+    early = st.one_of(st.just([]), st.just([]), st.lists(
+        st.tuples(st.sampled_from([0.0, 0.05, 0.2, 0.5, 1.0, 1.5, 2.5, 4.0]), st.sampled_from(EARLY_KINDS)).map(list),
+        min_size=1, max_size=4))
     return st.builds(
-        lambda script, reqs, j, susp: {"script": script, "reqs": reqs, "jitter": j, "suspend": susp},
+        lambda script, reqs, j, susp, early: {"script": script, "reqs": reqs, "jitter": j, "suspend": susp, "early": early},
         st.lists(entry, min_size=1, max_size=16), st.lists(req, max_size=4), jitter,
-        st.lists(st.sampled_from([0.0, 0.0, 0.05, 0.35, 1.2]), max_size=6))
+        st.lists(st.sampled_from([0.0, 0.0, 0.05, 0.35, 1.2]), max_size=6), early)
 
 
 def _datagram(kind, pos, hx):
@@ -128,7 +137,35 @@ def run_case(case) -> Result:
                    "mal_nodatas", "mal_trunc", "mal_reversed"}
 
     async def main(W):
-        spa, tm, ev = await clients.connect_async_spa(W, peer)
+        early = [(float(d), k) for d, k in case.get("early", [])]
+        for _, k in early:
+            if k not in EARLY_KINDS:
+                raise InvalidCase(k)
+        n_tr = len(W.transports)
+
+        async def noise_during_handshake():
+            while len(W.transports) == n_tr:
+                await asyncio.sleep(0.01)
+            t_open = W.clock.t
+            for d, k in sorted(early):
+                if W.clock.t < t_open + d:
+                    await W.sleep(t_open + d - W.clock.t)
+                W.inject(W.transports[-1], _datagram(k, 300, "beef"), peer.addr)
+
+        injector = asyncio.ensure_future(noise_during_handshake()) if early else None
+        try:
+            spa, tm, ev = await clients.connect_async_spa(W, peer)
+        except SetupFailed as e:
+            if not early:
+                raise
+            # a fault-free handshake with nothing but unclaimed noise in between must still complete: noise leaves the
+            # head of the queue within a few polling intervals, long before any handshake request gives up
+            res.fail("C07|handshake-blocked-by-noise", f"noise {early} during the handshake: {e}")
+            W.expect_leftover = True
+            return
+        finally:
+            if injector is not None:
+                injector.cancel()
         try:
             proto = spa._protocol
             q = recording.install_queue(proto, W)
@@ -297,4 +334,6 @@ def run_case(case) -> Result:
         res.label("kind-" + k)
     if jitter:
         res.label("jittered")
+    if case.get("early"):
+        res.label("noise-during-handshake")
     return res
